@@ -319,7 +319,12 @@ impl Request {
             if !is_first_iteration {
                 header = Request::parse_http_request_header_string(&string);
                 if header.name == Header::_CONTENT_LENGTH {
-                    content_length = header.value.parse().unwrap();
+                    let boxed_content_length = header.value.parse();
+                    if boxed_content_length.is_err() {
+                        let message = format!("unable to parse Content-Length: {}", header.value);
+                        return Err(message);
+                    }
+                    content_length = boxed_content_length.unwrap();
                 }
             }
 
